@@ -81,7 +81,7 @@ def write_input_file(case, path=None, names=None, layout='case'):
 
 
 def execute(case, budget=6000, cpu_s=3.0, sched=None, names=None, prompt=None, refuse_at='case',
-            layout='case', requested=None, store=None, again=None):
+            layout='case', requested=None, store=None, again=None, again_always=False):
     """Run one case at solver level (real Solver, real InputStore on a real file).
     store: an existing InputStore to solve on again (histories on one store); its current content is what is supplied."""
     classes, enums = synth.build_classes(case['world'])
@@ -117,21 +117,26 @@ def execute(case, budget=6000, cpu_s=3.0, sched=None, names=None, prompt=None, r
         s = hb_solver.Solver(store, classes, prompt=pf)
         try:
             ok = s.solve(list(req), list(case['field_names']))
-            if again is not None and not ok:
-                # the same Solver is asked again (nothing new, or one more form) after it reported failure
-                run.first_failed = True
-                ok = s.solve(list(again))
+            if again is not None and (again_always or not ok):
+                # the same Solver is asked again (nothing new, or one more form); between the calls the caller looks at
+                # the solution, as a front end that shows progress would
+                run.first_failed = not ok
+                s.solution()
+                ok2 = s.solve(list(again))
+                ok = ok2 if not again_always else ok2
                 run.requested = list(req) + [a for a in again if a not in req]
+            # handing out the solution and the diagnostics is part of the solve as far as the properties are concerned
+            sol = solution_dict(s.solution())
+            diag = (list(s.unimplemented_fields()), {k: list(v) for k, v in s.unmet_input_dependencies().items()},
+                    {k: list(v) for k, v in s.unmet_field_dependencies().items()})
         except Exception as e:
             run.outcome = 'abort'
             run.exc = (type(e).__name__, str(e)[:300])
         else:
             run.outcome = 'solved' if ok else 'failed'
             run.returned = ok
-            run.solution = solution_dict(s.solution())
-            run.unimpl = list(s.unimplemented_fields())
-            run.unmet_in = {k: list(v) for k, v in s.unmet_input_dependencies().items()}
-            run.unmet_f = {k: list(v) for k, v in s.unmet_field_dependencies().items()}
+            run.solution = sol
+            run.unimpl, run.unmet_in, run.unmet_f = diag
     if run.outcome != 'abort':
         m.finish()
     run.supplied = sorted(set(names) | set(m.answered))
@@ -366,6 +371,12 @@ def judge_common(run, r1):
                      f'{sorted(run.unmet_in)[:5]} reported as not supplied (never asked for)'))
     if returned:
         flat = flat_solution(run)
+        # ---- the solution handed out holds exactly the lines whose evaluation completed ----
+        done = set(m.stored)
+        if set(flat) != done:
+            out.append(F('C14', 'C14.solution', 'solution-vs-computed',
+                         f'solution() differs from the lines that were computed: missing {sorted(done - set(flat))[:5]} '
+                         f'extra {sorted(set(flat) - done)[:5]}'))
         # ---- C06: no lost waiter => everything the model can compute was computed ----
         lost = sorted(set(r1.values) - set(flat))
         if lost and r1.verdict != 'abort':
@@ -384,7 +395,7 @@ def judge_common(run, r1):
             if uf != {k: set(v) for k, v in r1.blocked.items()}:
                 out.append(F('C05', 'C05.model', 'unmet-fields', f'unmet fields {run.unmet_f} model {r1.summary()["blocked"]}'))
         # ---- C04.model ----
-        if run.outcome == 'solved' and r1.verdict != 'abort' and set(flat) != set(r1.demanded):
+        if run.outcome == 'solved' and (r1.verdict != 'abort' or set(r1.aborts) == {'<solution>'}) and set(flat) != set(r1.demanded):
             out.append(F('C04', 'C04.model', 'closure',
                          f'solution lines differ from the demand closure: extra {sorted(set(flat) - r1.demanded)[:6]} '
                          f'missing {sorted(r1.demanded - set(flat))[:6]}'))
@@ -419,7 +430,7 @@ def judge_synth(case, run, r1):
                 out.append(F(prop, f'{prop}.stored', 'stored-differs',
                              f'{q}: evaluation returned {st}, re-derivation gives {nv}'))
     # ---- C04: closure (whenever success is reported) ----
-    if run.outcome == 'solved' and r1.verdict != 'abort':
+    if run.outcome == 'solved' and (r1.verdict != 'abort' or set(r1.aborts) == {'<solution>'}):
         flat = flat_solution(run)
         hist = closure_from_history(case, run)
         if hist is not None and set(flat) != hist:
